@@ -50,7 +50,7 @@ pub fn run_spaces(ctx: &Ctx, prop: &'static str, spaces: &[Space]) -> JobOut {
         }
     }
     // heavier jobs first for better balance
-    jobs.sort_by_key(|(i, _)| std::cmp::Reverse((spaces[*i].alphabet.len() as f64).powi(spaces[*i].depth as i32) as u64 * spaces[*i].cfg.max_period() as u64));
+    jobs.sort_by_key(|(i, _)| std::cmp::Reverse(((spaces[*i].alphabet.len() as f64).powi(spaces[*i].depth as i32) as u64).saturating_mul(spaces[*i].cfg.max_period().min(4096) as u64)));
     let outs = par_run(ctx, &jobs, |_, (i, a)| {
         let sp = &spaces[*i];
         let mut out = JobOut::default();
